@@ -489,6 +489,8 @@ def gen_op(rng, cfg, c, ncircs, handles_here, nhandles, force_cls=None):
     if cls == 'DispersiveMeasure':
         tag = rng.randrange(3)
         reg = c if rng.random() < 0.8 else rng.randrange(ncircs)
+        if reg in getattr(cfg, '_copies', ()):
+            reg = 0   # a raw structure copy has no acquisition registry of its own
     if cls == 'CoordinateShiftOperation':
         ints = [rng.randrange(0, 3), rng.randrange(0, 3)]
     if cls == 'DetectorOperation':
@@ -508,6 +510,7 @@ def gen_op(rng, cfg, c, ncircs, handles_here, nhandles, force_cls=None):
 
 def gen_program(rng, cfg: GenConfig):
     prog = [['new', 'f1']]
+    cfg._copies = set()
     handles = [[]]      # per circuit: handles added to it
     nest_depth = [0]    # nesting depth of content
     nh = 0
@@ -549,6 +552,7 @@ def gen_program(rng, cfg: GenConfig):
         acc += cfg.p_copy
         if r < acc and nc < cfg.max_circs:
             prog.append(['copy', c])
+            cfg._copies.add(len(handles))
             handles.append([])
             nest_depth.append(nest_depth[c])
             continue
